@@ -102,15 +102,15 @@ def judge(scn, log=None):
     if not wr.snapshots:
         return fails, wr
     first = wr.snapshots[0]
-    rscn = dict(scn, reader="class")
+    # read back at the record level (for IpmWriter: the records its encoder produced), so that a decoding
+    # defect - C06's business - cannot raise a finalisation alarm
+    rscn = dict(scn, reader="class", level="vbs")
     rd = pipeline.read_phase(rscn, first)
-    if scn["level"] == "vbs":
-        expected = items
-    else:
-        # decoded form of what was written: judged by key containment like the C06 control arm
-        expected = None
-    ok_first = rd.end == "stop" and (rd.items == expected if expected is not None
-                                     else _ipm_equal(items, rd.items, scn))
+    try:
+        expected = items if scn["level"] == "vbs" else pipeline.asked_records(scn, items)
+    except Exception:
+        return fails, wr
+    ok_first = rd.end == "stop" and rd.items == expected
     if not ok_first:
         fails.append({"oracle": "C11.first_finalisation_reads_back",
                       "detail": f"after the first finalisation ({fins[0]}) the file reads back as {len(rd.items)} records then {rd.end}; {len(items)} were written",
